@@ -43,7 +43,7 @@ func init() {
 		MinDistinct: map[string]int{"quick": 40000, "thorough": 3000000},
 		Plan: func(tier string) fw.Plan {
 			if tier == "thorough" {
-				return fw.Plan{Shards: 16, CasesPerShard: 60000, TimeoutSec: 3000}
+				return fw.Plan{Shards: 16, CasesPerShard: 500000, TimeoutSec: 3000}
 			}
 			return fw.Plan{Shards: 8, CasesPerShard: 4000, TimeoutSec: 600}
 		},
